@@ -9,14 +9,14 @@ Theorem C17_parse_inverts_write : forall si f bytes rest,
   wf_frame si f = true -> write_frame f = Some bytes -> struct_frame si (bytes ++ rest) = Ok (f, rest).
 Proof. exact frame_roundtrip. Qed.
 
-(* C03 / C01 core (Release arithmetic): for EVERY well-formed, RFC-valid syntax tree — every syntactic
+(* C03 / C01 core : for EVERY well-formed, RFC-valid syntax tree — every syntactic
    alternative of the frame grammar, chosen independently — the streaming decoder (decode.rs) applied
    to the serialised frame returns exactly the samples the format defines, and leaves exactly the
    bytes that follow the frame. *)
 Theorem C03_decoder_follows_format : forall si chk f bytes rest,
   wf_frame si f = true -> spec_frame f = true -> write_frame f = Some bytes ->
   chk (f_hdr f) = Ok tt ->
-  dec_frame Release si chk (bytes ++ rest) = Ok (f_hdr f, sem_frame f, rest).
+  dec_frame si chk (bytes ++ rest) = Ok (f_hdr f, sem_frame f, rest).
 Proof. exact dec_frame_agree. Qed.
 
 (* C02 core: the strict reference decoder accepts every such frame with the same samples *)
@@ -35,7 +35,7 @@ Proof. exact spec_decode_write. Qed.
 (* C01 core: the crate's decoder and the reference decoder agree on every valid frame *)
 Theorem C01_decoders_agree : forall si f bytes rest,
   wf_frame si f = true -> spec_frame f = true -> write_frame f = Some bytes ->
-  exists h, dec_frame Release si (fun _ => Ok tt) (bytes ++ rest) = Ok (h, sem_frame f, rest) /\
+  exists h, dec_frame si (fun _ => Ok tt) (bytes ++ rest) = Ok (h, sem_frame f, rest) /\
             spec_decode si (bytes ++ rest) = Ok (sem_frame f, rest).
 Proof.
   intros si f bytes rest Hwf Hsp Hw. exists (f_hdr f). split.
@@ -43,17 +43,17 @@ Proof.
   - apply spec_decode_write; auto.
 Qed.
 
-(* C04 (Release profile): no byte string makes the frame decoder panic ... *)
-Theorem C04_frame_total_release : forall si chk bytes,
-  (forall h, is_panic (chk h) = false) -> is_panic (dec_frame Release si chk bytes) = false.
-Proof. exact dec_frame_release_total. Qed.
+(* C04: no byte string makes the frame decoder panic ... *)
+Theorem C04_frame_total : forall si chk bytes,
+  (forall h, is_panic (chk h) = false) -> is_panic (dec_frame si chk bytes) = false.
+Proof. exact dec_frame_total. Qed.
 (* ... nor the whole-stream decoder, whose loop also cannot run out of fuel (termination) *)
-Theorem C04_stream_total_release : forall file,
-  match dec_stream Release file with Some (_, _, e) => is_end_panic e = false | None => True end.
-Proof. exact dec_stream_release_total. Qed.
+Theorem C04_stream_total : forall file,
+  match dec_stream file with Some (_, _, e) => is_end_panic e = false | None => True end.
+Proof. exact dec_stream_total. Qed.
 (* every decoded frame consumes at least two bytes of input *)
-Theorem C04_frame_progress : forall p si chk bytes h chans rest,
-  dec_frame p si chk bytes = Ok (h, chans, rest) -> (length rest + 2 <= length bytes)%nat.
+Theorem C04_frame_progress : forall si chk bytes h chans rest,
+  dec_frame si chk bytes = Ok (h, chans, rest) -> (length rest + 2 <= length bytes)%nat.
 Proof. exact dec_frame_progress. Qed.
 
 (* non-vacuity: a concrete well-formed frame (16-bit mono, 4 samples, FIXED order 1, one Rice partition) *)
